@@ -62,4 +62,23 @@ def valueAt (snaps : List Raw) (k : Key) (i : Nat) : Nat :=
 def totalField (snaps : List Raw) (r : Raw) (i : Nat) : Nat :=
   (r.map fun kv => valueAt (r :: snaps) kv.1 i).sum
 
+/-! ## "Stays present" at the level of the kernel's listing (what the property statement says),
+     independent of which devices a given form of the call hands to `wrap_numbers`.
+     `pastNewestFirst`: the earlier public operations, newest first, as
+     (function is disk?, kind) where kind = `none` for a cache_clear reaching this function,
+     `some (nowrap, perdev, names listed by the kernel)` for a call of this function. -/
+
+/-- index (newest = 0) of the previous per-device `nowrap=True` call of the same function such
+    that no cache_clear lies in between and `k` was listed by the kernel at every `nowrap=True`
+    call of that function in between (of either form); `none` if there is none. -/
+def prevPresent (k : Key) : List (Option (Bool × Bool × List Key)) → Option Nat
+  | [] => none
+  | none :: _ => none                                   -- cache_clear: history forgotten
+  | some (nowrap, perdev, names) :: rest =>
+    if nowrap then
+      if names.contains k then
+        if perdev then some 0 else (prevPresent k rest).map (· + 1)
+      else none                                         -- the device was away: it starts afresh
+    else (prevPresent k rest).map (· + 1)
+
 end Psutil.C10.Spec
